@@ -512,6 +512,10 @@ func indexShape(v ssa.Value, loops []*core.Loop) (first ssa.Value, total ssa.Val
 	if f, ok := lit(v); ok {
 		return f, nil, true
 	}
+	if mk, isMk := core.StripType(v).(*ssa.MakeSlice); isMk {
+		// the index made at its final size and filled in place: [0] = kind byte, [1 + k*i + c] per token i
+		return inPlaceIndexShape(mk, loops)
+	}
 	phi, ok := core.StripType(v).(*ssa.Phi)
 	if !ok {
 		return nil, nil, false
@@ -594,6 +598,98 @@ func indexShape(v ssa.Value, loops []*core.Loop) (first ssa.Value, total ssa.Val
 	return first, mk.Len, first != nil
 }
 
+// inPlaceIndexShape: mk = make(Indices, 1 + k*len(ts)); mk[0] = first; inside one range loop over ts the
+// positions 1+k*i .. k+k*i are each stored exactly once per trip (unconditionally), nothing else is stored.
+func inPlaceIndexShape(mk *ssa.MakeSlice, loops []*core.Loop) (first ssa.Value, total ssa.Value, ok bool) {
+	pv := core.NewProver(mk.Parent())
+	var loop *core.Loop
+	var ri *core.RangeInfo
+	offs := map[int64]bool{}
+	for _, ref := range core.Referrers(mk) {
+		ia, isIA := ref.(*ssa.IndexAddr)
+		if !isIA {
+			if c, isCall := ref.(*ssa.Call); isCall && (core.IsBuiltin(c, "append") || core.IsBuiltin(c, "copy")) {
+				return nil, nil, false
+			}
+			continue
+		}
+		for _, r2 := range core.Referrers(ia) {
+			st, isSt := r2.(*ssa.Store)
+			if !isSt || st.Addr != ssa.Value(ia) {
+				continue
+			}
+			if z, isC := core.ConstInt(ia.Index); isC {
+				if z != 0 || first != nil {
+					return nil, nil, false
+				}
+				first = st.Val
+				continue
+			}
+			l := core.InnermostLoop(loops, st.Block())
+			if l == nil {
+				return nil, nil, false
+			}
+			x, okR := core.AsRange(l)
+			if !okR || x.Kind != "slice" || (loop != nil && l != loop) {
+				return nil, nil, false
+			}
+			loop, ri = l, x
+			for _, la := range l.Latch {
+				if !st.Block().Dominates(la) {
+					return nil, nil, false
+				}
+			}
+			// index = k*i + c: find k in {1,2}
+			found := false
+			for _, k := range []int64{1, 2} {
+				f := pv.Form(ia.Index).Add(pv.Form(ri.Index), -k)
+				if len(f.T) == 0 {
+					if offs[f.C] {
+						return nil, nil, false
+					}
+					offs[f.C*10+k] = true
+					found = true
+					break
+				}
+			}
+			if !found {
+				return nil, nil, false
+			}
+		}
+	}
+	if first == nil || loop == nil {
+		return nil, nil, false
+	}
+	// all stores share k; offsets are exactly 1..k
+	var k int64
+	var cs []int64
+	for key := range offs {
+		kk := key % 10
+		if k != 0 && kk != k {
+			return nil, nil, false
+		}
+		k = kk
+		cs = append(cs, key/10)
+	}
+	if int64(len(cs)) != k {
+		return nil, nil, false
+	}
+	seenC := map[int64]bool{}
+	for _, c := range cs {
+		if c < 1 || c > k || seenC[c] {
+			return nil, nil, false
+		}
+		seenC[c] = true
+	}
+	// size: 1 + k*len(ranged)
+	want := pv.LenForm(ri.X).Scale(k).Plus(1)
+	d := pv.Form(mk.Len).Add(want, -1)
+	if len(d.T) != 0 || d.C != 0 {
+		return nil, nil, false
+	}
+	return first, &directTotal{ranged: ri.X, perTrip: k}, true
+}
+
 // checkFullLayout: encoder stores length at payload[2i+a], type at payload[2i+b];
 // decoder reads length at ti[i+c], type at ti[i+d] in a loop from s step 2:
 // require 1+a == s+c and 1+b == s+d.
@@ -626,7 +722,14 @@ func checkFullLayout(p *core.Program, r *core.Report, enc, dec *ssa.Function) {
 		if len(f.T) != 0 {
 			return
 		}
-		o := &off{2, f.C, p.InstrPos(st)}
+		c := f.C
+		// stores into the index itself (made at its final size) are absolute: relative to the payload they are one less
+		for _, ret := range core.Returns(enc) {
+			if len(ret.Results) > 0 && core.StripType(ret.Results[0]) == core.StripType(ia.X) {
+				c = f.C - 1
+			}
+		}
+		o := &off{2, c, p.InstrPos(st)}
 		if unitOf(p, st.Val, 0) != "" {
 			lenOffE = o
 		} else if isTokenTypeValue(st.Val) {
